@@ -3,6 +3,7 @@ package main
 import (
 	"fmt"
 	"math"
+	"time"
 
 	"harness/sx"
 
@@ -45,7 +46,7 @@ func c07Input(safe bool, v *variants.Variant, targets []int) sx.SX {
 			}
 		}
 	}
-	return sx.L(sx.B(safe), valSX(v), ts, orc)
+	return sx.L(sx.B(safe), valSXin(v), ts, orc)
 }
 
 func genC07(ctx *Ctx) {
@@ -53,7 +54,7 @@ func genC07(ctx *Ctx) {
 	for _, v := range pool {
 		for t := 0; t <= 10; t++ {
 			if v.Type() == variants.Integer || v.Type() == variants.Long {
-				if t == int(variants.DateTime) && farDate(variants.VariantFromDateTime(pool[47].AsDateTime()), v) {
+				if t == int(variants.DateTime) && farDate(variants.VariantFromDateTime(time.Unix(0, 0)), v) {
 					continue
 				}
 			}
@@ -76,7 +77,7 @@ func genC07(ctx *Ctx) {
 			if cur == nil {
 				break
 			}
-			if t == int(variants.DateTime) && farDate(variants.VariantFromDateTime(pool[47].AsDateTime()), cur) {
+			if t == int(variants.DateTime) && farDate(variants.VariantFromDateTime(time.Unix(0, 0)), cur) {
 				skip = true
 			}
 			cur, _ = m.Convert(cur, variants.VariantType(t))
